@@ -301,7 +301,7 @@ def cmdSweep (t : List String) : String :=
 def setWhich (r : Regs) (which : Nat) (v : UInt16) : Regs :=
   match which with
   | 0 => r.setBC v | 1 => r.setDE v | 2 => r.setHL v | 3 => r.setIX v | 4 => r.setIY v
-  | 5 => { r with sp := v } | 6 => { r with pc := v } | _ => r.setAF v
+  | 5 => { r with sp := v } | 6 => { r with pc := v } | 8 => { r with i := hiByte v, r := loByte v } | _ => r.setAF v
 
 def b2u (b : Bool) : UInt64 := if b then 1 else 0
 
